@@ -543,8 +543,9 @@ pub fn cases() -> BoxedStrategy<TdfCase> {
     prop_oneof![
         6 => any_font().prop_map(|f| TdfCase { mode: 0, layout: 0, fonts: vec![f] }),
         1 => dense_font().prop_map(|f| TdfCase { mode: 0, layout: 0, fonts: vec![f] }),
-        6 => bundle().prop_map(|fonts| TdfCase { mode: 1, layout: 0, fonts }),
-        1 => (vec(small_font(), 0..=2), dense_font()).prop_map(|(mut fonts, d)| { fonts.push(d); TdfCase { mode: 1, layout: 0, fonts } }),
+        // (names longer than 12 bytes are refused by the writer: they are kept to the single-font mode so that one such name does not void a whole bundle)
+        6 => bundle().prop_map(|fonts| TdfCase { mode: 1, layout: 0, fonts: fonts.into_iter().map(fit_name).collect() }),
+        1 => (vec(small_font(), 0..=2), dense_font()).prop_map(|(mut fonts, d)| { fonts.push(d); TdfCase { mode: 1, layout: 0, fonts: fonts.into_iter().map(fit_name).collect() } }),
         8 => (bundle(), 0u8..4).prop_map(|(fonts, layout)| TdfCase { mode: 2, layout, fonts: fonts.into_iter().map(fit_name).collect() }),
     ]
     .boxed()
